@@ -618,11 +618,16 @@ def parse_tree_to_objgraph(
                                 n
                                 for n in node
                                 if type(n) is not Terminal
-                                and n.rule._tx_class is not RULE_MATCH
+                                and n.rule._tx_class._tx_type != RULE_MATCH
                             )
                         )  # noqa
                     except StopIteration:
-                        # All nodes are match rules, do concatenation
+                        # All nodes are match rules. Keep the established
+                        # result (see test_issue166): the first match rule
+                        # that produced a non-terminal, else concatenation.
+                        for n in node:
+                            if type(n) is not Terminal:
+                                return process_node(n)
                         return "".join(str(n) for n in node)
                 else:
                     return process_node(node[0])
